@@ -9,7 +9,8 @@
    definition of the REGENERATED published strict schema (gen/Schemas.v `published_hugr_strict`), and a package
    of such documents by its Package definition, under the visible hypothesis that the file's OpType definition
    accepts every operation object (C05/C17's subject); the proof goes through hand-written shapes of the two
-   definitions which a vm_compute lemma compares with the file on every run.
+   definitions which a vm_compute lemma compares with the file on every run (up to key order, order of `required`,
+   "additionalProperties": true and annotations).
    Monitored, not proved: that the JSON text hugr-py emits is `doc_json` of the model's document (evaluated per
    case), validity of every emitted document against the published strict schema (Coq validator of
    model/Schema.v and python-jsonschema, both per generated document: HUGRs, packages, extensions), and the
@@ -17,7 +18,8 @@
 From Coq Require Import List Bool Arith String ZArith.
 Import ListNotations.
 From HV Require Import lib.Harness model.SerialHugr spec.SerialHugrS proofs.SerialHugrP.
-From HV Require Import model.Schema model.SchemaFast model.DocJson model.NodeParent proofs.SchemaFastP proofs.DocJsonP
+From HV Require Import model.Schema model.SchemaFast model.SchemaStrip model.DocJson model.NodeParent proofs.SchemaFastP
+  proofs.SchemaStripP proofs.DocJsonP
   proofs.NodeParentP proofs.DocJsonSchemasP gen.Schemas spec.DocJsonS proofs.DocJsonIndexP.
 Open Scope nat_scope.
 
@@ -57,6 +59,15 @@ Section C03.
     json_index_sane (doc_json op_fields md_fields encoder s) = true.
   Proof.
     exact (model_json_index_sane op sop md enc ndp md_nil md_is_nil vports sports has_order ndp_spec op_fields md_fields).
+  Qed.
+
+  (* ... and port addressing in the JSON text: `edges` is, link by link, [[rank src, addr src], [rank dst, addr dst]] *)
+  Theorem C03_json_text_port_addressing : forall (encoder : option string) (h : hugr op md) (s : serial sop md),
+    guard_b vports sports has_order h = true -> to_serial enc ndp md_is_nil h = Some s ->
+    jget "edges" (doc_json op_fields md_fields encoder s) =
+    Some (JArr (map (fun l => edge_json (expected_edge vports sports h l)) (h_links h))).
+  Proof.
+    exact (model_json_edges op sop md enc ndp md_nil md_is_nil vports sports has_order ndp_spec op_fields md_fields).
   Qed.
 
   (* serialization of a guarded HUGR does not fail *)
@@ -132,6 +143,12 @@ Theorem C03_published_OpType_ignores_parent_index : forall f a b kvs,
   accepts f published_hugr_strict "OpType" (pnode a kvs) = accepts f published_hugr_strict "OpType" (pnode b kvs).
 Proof. exact (accepts_parent_indep _ _ "OpType" strict_OpType_parent_cert (or_introl eq_refl)). Qed.
 
+(* annotations (title, description, default, discriminator) have no effect on validation: what lets the shapes be
+   written without the documentation strings of the published file *)
+Theorem C03_annotations_do_not_matter : forall fuel root s d,
+  validates fuel (strip root) (strip s) d = validates fuel root s d.
+Proof. exact strip_preserves_validation. Qed.
+
 (* the monitor's short-circuit validator is the validator of model/Schema.v *)
 Theorem C03_fast_validator_is_the_validator : forall fuel root name d,
   faccepts fuel root name d = accepts fuel root name d.
@@ -149,6 +166,7 @@ Print Assumptions C03_serial_index_sane.
 Print Assumptions C03_serial_port_addressing.
 Print Assumptions C03_serialization_total.
 Print Assumptions C03_json_text_index_sane.
+Print Assumptions C03_json_text_port_addressing.
 Print Assumptions C03_index_reuse_refuted.
 Print Assumptions C03_example.
 Print Assumptions C03_model_document_schema_valid.
@@ -156,5 +174,6 @@ Print Assumptions C03_model_package_schema_valid.
 Print Assumptions C03_document_schema_valid_any_file.
 Print Assumptions C03_published_shapes.
 Print Assumptions C03_published_OpType_ignores_parent_index.
+Print Assumptions C03_annotations_do_not_matter.
 Print Assumptions C03_fast_validator_is_the_validator.
 Print Assumptions C03_schema_example.
